@@ -109,8 +109,13 @@ def main():
                 ops.append(("elements", i))
             elif r < 0.88:
                 ops.append(("global", i))
-            elif r < 0.94:
+            elif r < 0.91:
                 ops.append(("generate_global", i))
+            elif r < 0.94:
+                # the same generation while RDKit's (privately random) embedding fails for the k-th fragment
+                seed = rnd.randrange(5)
+                ops.append(("generate_embedfail", i, seed, rnd.randrange(6)))
+                need.add((strs[i], seed))
             else:
                 ops.append(("ff", i, rnd.randrange(5)))
                 need.add((strs[i], ops[-1][2]))
@@ -150,6 +155,33 @@ def main():
                         if any(id(bd) in owned[i] for bd in g.bond_descriptors):
                             ck.fail("molecule-shares-descriptor-with-parsed-object", inp, "an open descriptor of the generated molecule IS a descriptor of the parsed object")
                         ck.count("op:generate" + (":system" if strs[i].startswith("SYSTEM:") else ""))
+                    elif name == "generate_embedfail":
+                        import gbigsmiles.mol_gen as _mg
+                        orig = _mg.AllChem.EmbedMolecule
+                        calls = [0]
+
+                        def shim(mol, *a, **k):
+                            calls[0] += 1
+                            rc = orig(mol, *a, **k)
+                            if calls[0] - 1 == op[3]:
+                                mol.RemoveAllConformers()
+                                return -1
+                            return rc
+                        _mg.AllChem.EmbedMolecule = shim
+                        try:
+                            try:
+                                g = o.generate(rng=np.random.default_rng(op[2]))
+                                got = (g.smiles, None)
+                            except Exception as exc:   # noqa
+                                got = (None, f"{type(exc).__name__}: {exc}")
+                        finally:
+                            _mg.AllChem.EmbedMolecule = orig
+                        b = base[(strs[i], op[2])]
+                        if "error" not in b and calls[0] > op[3]:
+                            ck.count("op:generate_embedfail")
+                            if got[0] != b["smiles"]:
+                                ck.fail("outcome-depends-on-rdkit-embedding", inp, f"generate(seed {op[2]}) with the embedding of fragment #{op[3]} failing gives {got}; "
+                                        f"a fresh process gives {b['smiles']}: RDKit's embedding draws from its own random numbers and fails now and then")
                     elif name == "generate_global":
                         o.generate()                       # library's global generator: result is not compared, state effects are
                     elif name == "print":
